@@ -318,3 +318,17 @@ pub fn handovers_at_or_above_previous(r: &Rec) -> bool {
     }
     true
 }
+
+/// C03 for the reports the derived container makes itself through a user function's error (conversion, missing-field / unknown-key
+/// function, validation): once such a report is answered Break, the container returns -- every later call is a hand-over.
+/// (Valid for the harness shapes used here: no derived type with user functions sits below a container that could continue with
+/// siblings after the hand-over.)
+pub fn stop_at_user_fn_report_ends_the_container(r: &Rec) -> bool {
+    let mut i = 0; let mut stopped = false;
+    while i < r.n as usize && i < CAP {
+        if stopped && r.ev[i].kind() != K_HANDOVER { return false; }
+        if r.ev[i].kind() == K_FOREIGN && r.ev[i].stop() { stopped = true; }
+        i += 1;
+    }
+    true
+}
